@@ -719,7 +719,17 @@ pub fn run(ctx: &Ctx, prop: &str) -> Report {
         let mut r = Rng::derive(ctx.seed, "glide.mixed", sh as u64);
         for j in 0..(n_mix + shards - 1) / shards {
             let max_n = if small { 200.0 } else if j % 50 == 0 { 480_000.0 } else { 5_000.0 };
-            let h = gen_mixed(&mut r, max_n, if small { 8 } else { 30 });
+            let mut h = gen_mixed(&mut r, max_n, if small { 8 } else { 30 });
+            if prop == "C13" {
+                // C13 is stated for times in [0, 10] s (what happens above is C14's clause "behaves like 10 s")
+                for op in h.ops.iter_mut() {
+                    if let Op::SetTime(t) = op {
+                        if *t > 10.0 {
+                            *t = 10.0;
+                        }
+                    }
+                }
+            }
             run_and_record(&h, prop, &mut rep, sh == 0 && j < 2);
         }
         rep
